@@ -42,10 +42,12 @@ Fresh sub-agents, each given only the text of one property and a scratch worktre
 bourumir-wyngs/serde-saphyr (nothing from /verif), produced changes that break the property while
 compiling and passing the whole existing suite, each with a demonstration that fails with the change
 and passes without it. Two rounds were run (round 2 was told which mechanisms round 1 had used).
-Every kept change was confirmed by `tools/confirm_seed.sh` on a scratch worktree of the final /repo
-HEAD (applies; default and `--all-features` suites pass with it; demonstration fails with / passes
-without) and run against its check with `tools/mutant_run.sh` (scratch worktree + scratch copy of the
-harness; /repo itself is never modified). Files: `/verif/seeded/<id>/` (patch.diff, demo.rs, notes.md,
+Every kept change was confirmed again after the second pass by `tools/reconfirm_all.sh`
+(`confirm_seed.sh` on a scratch worktree of the /repo HEAD named in its confirm.txt — `ef1bd64` or
+later; every patch also applies to the final HEAD: applies; default and `--all-features` suites pass
+with it; demonstration fails with / passes without) and run against the final version of its check
+with `tools/mutant_run.sh` (scratch worktree + scratch copy of the harness; /repo itself is never
+modified). All 68 are caught by the quick tier. Files: `/verif/seeded/<id>/` (patch.diff, demo.rs, notes.md,
 confirm.txt, mutant.txt, meta.json).
 
 Dropped, not kept: C09-2 (round 1; UTF-8 pass-through without BOM stripping — superseded when
@@ -53,9 +55,10 @@ Dropped, not kept: C09-2 (round 1; UTF-8 pass-through without BOM stripping — 
 (neutralised by later repairs: with the change applied the property now still holds — the
 demonstration passes — because a second guard exists: `efd9943`, `ae6e608`, `4a7345f`, the reworked
 sequence layout), C15-1 (removed the entry reset that the save/restore repair `0140587` replaced),
-R2-C11-1 (its bug-fix half is the repair `e85e49e`; the patch no longer applies). Several round-1
-patches were re-created by hand on the repaired source by an isolated agent (same slip, same
-demonstration) because the code around them had changed; their notes say so.
+R2-C11-1 (its bug-fix half is the repair `e85e49e`; the patch no longer applies). Patches whose
+surroundings were changed by later repairs were re-created on the repaired source (same slip, same
+demonstration) by an isolated agent that saw only the patch, its demonstration and notes; three were
+carried over mechanically (their lines had only moved). Their notes say so.
 
 Where a seeded change was missed, the check was strengthened (never loosened) and the change re-run;
 the table says so. "witnesses" counts VIOLATION lines (capped at 25 per run).
